@@ -489,6 +489,13 @@ Section Traversal.
   Definition key_child (all : list Z) (seen : list (Z * Z)) (x : Z) : list Z :=
     if o_random o then [w x; tb x]
     else [group_of all x; w x; match zget seen x with Some d => d | None => 0 end; tb x].
+  (* since fix 2e3e6bb the children of atom p are sorted by (mod_weights(x), int(bonds[p][x])): ties of the weight part are
+     broken by the order of the bond to the parent before set iteration order (tb) decides.  [key_child] above is the weight
+     part followed by tb; [key_child_at p] is the key actually used by the traversal *)
+  Definition bond_ord_to (p x : Z) : Z := match bond_of g p x with Some b => b_ord b | None => 0 end.
+  Definition key_child_at (all : list Z) (seen : list (Z * Z)) (p x : Z) : list Z :=
+    if o_random o then [w x; bond_ord_to p x; tb x]
+    else [group_of all x; w x; match zget seen x with Some d => d | None => 0 end; bond_ord_to p x; tb x].
 
   (* the BFS distances from the start atom *)
   Fixpoint bfs (fuel : nat) (queue : list (Z * Z)) (seen : list (Z * Z)) : list (Z * Z) :=
@@ -503,8 +510,9 @@ Section Traversal.
         end
     end.
 
-  (* one iteration of `while stack:` of the DFS; None = the loop condition is false *)
-  Definition dfs_step (key : Z -> list Z) (st : dfs_st) : option dfs_st :=
+  (* one iteration of `while stack:` of the DFS; None = the loop condition is false.
+     [key p] is the sort key of the neighbours of atom p *)
+  Definition dfs_step (key : Z -> Z -> list Z) (st : dfs_st) : option dfs_st :=
     match ds_stack st with
     | [] => None
     | (parent, depth_now, children) :: rest =>
@@ -517,7 +525,7 @@ Section Traversal.
                 if 1 <? depth_now then
                   match filter (fun m => negb (m =? parent)) (nbr_ids g child) with
                   | [] => stack1
-                  | front => (child, depth_now - 1, sort_by key front) :: stack1
+                  | front => (child, depth_now - 1, sort_by (key child) front) :: stack1
                   end
                 else stack1 in
               Some (mkDfs stack2 (ds_visited st ++ [(child, [parent])]) (ds_disc st)
@@ -748,8 +756,8 @@ Section Traversal.
     | Some start =>
         let seen := if o_random o then ws_seen st
                     else bfs (S n_atoms) [(start, 1)] (zset (ws_seen st) start 0) in
-        let key := key_child all seen in
-        let st0 := mkDfs [(start, Z.of_nat (List.length (ws_atoms st)), sort_by key (nbr_ids g start))]
+        let key := key_child_at all seen in
+        let st0 := mkDfs [(start, Z.of_nat (List.length (ws_atoms st)), sort_by (key start) (nbr_ids g start))]
                          [(start, [])] [] [] [] (ws_cycle st) in
         match iter_opt dfs_fuel (dfs_step key) st0 with
         | None => Err OtherError
